@@ -138,8 +138,38 @@ def r1_rename_map(ctx, rep):
     dirs = [d for d in dirs if d[0] is not None or d[1] is not None]
     if not dirs:
         raise AnalysisError("get_used_entities: could not relate the rename map to the groups of RENAME_RE")
-    ok = all(d == (2, 1) for d in dirs)
-    rep.ob("rename direction local => remote", ok, "map[remote] = local (RENAME_RE groups 2 -> 1)" if ok else
+    # which group of RENAME_RE is the local name: the one in front of `=>` (groups may be numbered or named)
+    import re._parser as _sre
+    rp_, rf_, _rn, _ro = ctx.regexes["FortranModule.RENAME_RE"]
+    tree = _sre.parse(rp_, rf_)
+    gnames = {v: k for k, v in tree.state.groupdict.items()}
+    order = []
+    def scan(seq):
+        for op, av in seq:
+            o = str(op)
+            if o == "SUBPATTERN":
+                if av[0] is not None:
+                    order.append(("g", av[0]))
+                scan(av[3])
+            elif o == "LITERAL":
+                order.append(("c", chr(av)))
+            elif o == "BRANCH":
+                for a_ in av[1]:
+                    scan(a_)
+            elif o in ("MAX_REPEAT", "MIN_REPEAT"):
+                scan(av[2])
+    scan(tree)
+    arrow = next((i for i, x in enumerate(order) if x == ("c", "=") and i + 1 < len(order) and order[i + 1] == ("c", ">")), None)
+    before = [g for k, g in order[:arrow or 0] if k == "g"]
+    after = [g for k, g in order[(arrow or 0):] if k == "g"]
+    if arrow is None or not before or not after:
+        raise AnalysisError("RENAME_RE: groups around `=>` not identified")
+    L, R = before[-1], after[0]
+    def gid(x):
+        return tree.state.groupdict.get(x, x) if isinstance(x, str) else x
+    dirs = [(gid(a_), gid(b_)) for a_, b_ in dirs]
+    ok = all(d == (R, L) for d in dirs)
+    rep.ob("rename direction local => remote", ok, f"map[remote] = local (RENAME_RE groups {gnames.get(R, R)} -> {gnames.get(L, L)})" if ok else
            f"the rename map is filled as map[group {dirs[0][0]}] = group {dirs[0][1]}: local and remote name are swapped", py.nloc(maps[0]))
     only_asg = [e for e in ev if e.kind == "assign" and e.value is not None and "ONLY_RE" in e.text(e.value)]
     flag = [e for e in only_asg if "match" in e.text(e.value) or "search" in e.text(e.value)]
@@ -154,12 +184,47 @@ def r1_rename_map(ctx, rep):
     rep.ob("exported names compared lower-case", bool(tests) and tests_ok, "", py.nloc(uo))
 
 
+def _kept_entries(py, host, value: ast.AST):
+    """How `value` (what is written into a pub_* table) selects entries of the collection it is built from, as a list of
+    alternatives [(conditions [(test, polarity)], predicate tests on one entry, key variable, source collection)]:
+    a dict comprehension with `if`s, a plain copy, or a call of a closure of `host` whose returns are such values."""
+    def of_expr(v: ast.AST, conds):
+        if isinstance(v, ast.DictComp) and len(v.generators) == 1:
+            g = v.generators[0]
+            keyvar = g.target.elts[0].id if isinstance(g.target, ast.Tuple) and isinstance(g.target.elts[0], ast.Name) else None
+            keyed = isinstance(v.key, ast.Name) and v.key.id == keyvar
+            return [(conds, list(g.ifs), keyvar if keyed else None, g.iter)]
+        if isinstance(v, ast.Call) and call_name(v) == "dict" and len(v.args) == 1:
+            return [(conds, [], "*", v.args[0])]
+        if isinstance(v, ast.Call) and isinstance(v.func, ast.Attribute) and v.func.attr == "copy":
+            return [(conds, [], "*", v.func.value)]
+        if isinstance(v, ast.Name):
+            return [(conds, [], "*", v)]
+        return None
+    if isinstance(value, ast.Call) and isinstance(value.func, ast.Name):
+        local = [n for n in ast.walk(host) if isinstance(n, ast.FunctionDef) and n is not host and n.name == value.func.id]
+        if len(local) == 1:
+            out = []
+            for e in astq.trace(local[0]):
+                if e.kind == "return" and e.node.value is not None:
+                    alt = of_expr(e.node.value, [(t, p) for t, p, _s in e.conds])
+                    if alt is None:
+                        return None
+                    out += alt
+            return out or None
+    return of_expr(value, [])
+
+
 def r2_public_only(ctx, rep):
+    """What a module exports: at the definition site the entities whose permission is public or protected; of what it
+    imports by USE, the entries whose (local) name is public - by the unit default or by an explicit PUBLIC statement.
+    Decided on the canonical form: every write to a pub_* table is a selection of entries, and the selection predicate is
+    evaluated on all truth assignments of (unit default is public, name is in public_list)."""
     py = ctx.py
-    # writes to pub_*
     n = 0
+    writes = {}
     for q in ("FortranModule._cleanup", "FortranCodeUnit.correlate"):
-        fn = py.func(q)
+        fn = py.ifunc(q)
         for st in ast.walk(fn):
             val = None
             tgt = None
@@ -172,61 +237,93 @@ def r2_public_only(ctx, rep):
             if tgt is None:
                 continue
             n += 1
-            ok = isinstance(val, ast.Call) and call_name(val) == "filter_public"
-            rep.ob(f"{q}: write to {tgt} <- {ast.unparse(val)[:40]}", ok,
-                   "value produced by the public filter" if ok else
+            sel = _kept_entries(py, fn, val)
+            filtered = sel is not None and any(tests for _c, tests, _k, _s in sel)
+            writes.setdefault(q, []).append((tgt, val, sel, st))
+            rep.ob(f"{q}: write to {tgt} is a filtered selection", filtered,
+                   "only the entries that pass the public filter are written" if filtered else
                    f"self.{tgt} receives `{ast.unparse(val)[:50]}` unfiltered: private entities are exported", py.nloc(st))
     if n < 8:
         raise AnalysisError(f"only {n} writes to pub_* found")
-    # predicates
-    cl = py.func("FortranModule._cleanup")
-    fps = [h for h in ast.walk(cl) if isinstance(h, ast.FunctionDef) and h.name == "filter_public"]
+    # definition site: permission in {public, protected}
+    cl = py.ifunc("FortranModule._cleanup")
     perm_sets = []
-    for h in ([cl] + fps):
-        for c in ast.walk(h):
-            if isinstance(c, ast.Compare) and isinstance(c.ops[0], ast.In) and ast.unparse(c.left).endswith(".permission"):
-                v = py.eval_const(c.comparators[0], py.module_env("sourceform"))
-                if isinstance(v, (list, tuple, set)):
-                    perm_sets.append(set(v))
+    for _tgt, _val, sel, _st in writes.get("FortranModule._cleanup", []):
+        for _c, tests, _k, _s in (sel or []):
+            for t in tests:
+                for c in ast.walk(t):
+                    if isinstance(c, ast.Compare) and isinstance(c.ops[0], ast.In) and ast.unparse(c.left).endswith(".permission"):
+                        v = py.eval_at(c.comparators[0], cl)
+                        if isinstance(v, (list, tuple, set, frozenset)):
+                            perm_sets.append(set(v))
     ok = perm_sets and all(p == {"public", "protected"} for p in perm_sets)
     rep.ob("definition-site filter: permission in {public, protected}", bool(ok), "" if ok else f"permission sets {perm_sets}", py.nloc(cl))
-    co = py.func("FortranCodeUnit.correlate")
-    fp = [n for n in ast.walk(co) if isinstance(n, ast.FunctionDef) and n.name == "filter_public"]
-    if not fp:
-        raise AnalysisError("correlate: filter_public not found")
-    # the predicate applied to each table entry (a nested helper or an inline test)
-    comp = [n for n in ast.walk(fp[0]) if isinstance(n, ast.DictComp)]
-    ok = ok_pred = False
-    if comp:
-        c = comp[0]
-        gen = c.generators[0]
-        if isinstance(gen.target, ast.Tuple) and gen.ifs and isinstance(gen.target.elts[0], ast.Name):
-            keyvar = gen.target.elts[0].id
-            test = gen.ifs[0]
-            pred_src = [test]
-            arg_is_key = None
-            if isinstance(test, ast.Call) and isinstance(test.func, ast.Name):
-                hs = [h for h in ast.walk(co) if isinstance(h, ast.FunctionDef) and h.name == test.func.id]
-                if hs:
-                    pred_src = list(astq.returns(hs[0]))
-                    arg_is_key = bool(test.args) and isinstance(test.args[0], ast.Name) and test.args[0].id == keyvar
-                    pname = hs[0].args.args[0].arg
-                    # the parameter itself (not an attribute of it) must be what is looked up in public_list
-                    in_list = [x for r in pred_src for x in ast.walk(r) if isinstance(x, ast.Compare) and isinstance(x.ops[0], ast.In)
-                               and ast.unparse(x.comparators[0]).endswith("public_list")]
-                    arg_is_key = arg_is_key and all(isinstance(x.left, ast.Name) and x.left.id == pname for x in in_list) and bool(in_list)
-            else:
-                in_list = [x for x in ast.walk(test) if isinstance(x, ast.Compare) and isinstance(x.ops[0], ast.In)
-                           and ast.unparse(x.comparators[0]).endswith("public_list")]
-                arg_is_key = bool(in_list) and all(isinstance(x.left, ast.Name) and x.left.id == keyvar for x in in_list)
-            ptxt = " ".join(ast.unparse(r) for r in pred_src)
-            ok_pred = "self.permission == 'public'" in ptxt and "public_list" in ptxt and " or " in ptxt
-            ok = bool(arg_is_key) and isinstance(c.key, ast.Name) and c.key.id == keyvar
-    rep.ob("re-export filter: unit default public or name in public_list", ok_pred, "", py.nloc(fp[0]))
-    rep.ob("re-export filter is keyed by the local (possibly renamed) name", ok,
-           "the predicate receives the table key, i.e. the name under which this module knows the entity" if ok else
+    # re-export of USE-associated entities
+    co = py.ifunc("FortranCodeUnit.correlate")
+    def resolve(e: ast.AST, depth=0):
+        """a bare name that is bound once in correlate (a hoisted condition) stands for its value"""
+        if isinstance(e, ast.Name) and depth < 4:
+            vals = [v for _t, v in astq.assignments(co, e.id) if v is not None]
+            if len(vals) == 1:
+                return resolve(vals[0], depth + 1)
+        return e
+    def ev(e: ast.AST, env, keyvar):
+        e = resolve(e)
+        if isinstance(e, ast.Compare) and len(e.ops) == 1:
+            l, r = ast.unparse(e.left), ast.unparse(e.comparators[0])
+            if isinstance(e.ops[0], (ast.Eq, ast.NotEq)) and {l, r} == {"self.permission", "'public'"}:
+                return env["dp"] == isinstance(e.ops[0], ast.Eq)
+            if isinstance(e.ops[0], (ast.In, ast.NotIn)) and r.endswith("public_list"):
+                if keyvar not in ("*", None) and l != keyvar:
+                    return "not-the-key"
+                return env["il"] == isinstance(e.ops[0], ast.In)
+            return None
+        if isinstance(e, ast.UnaryOp) and isinstance(e.op, ast.Not):
+            v = ev(e.operand, env, keyvar)
+            return (not v) if isinstance(v, bool) else v
+        if isinstance(e, ast.BoolOp):
+            vals = [ev(x, env, keyvar) for x in e.values]
+            if "not-the-key" in vals:
+                return "not-the-key"
+            if isinstance(e.op, ast.And):
+                return False if False in vals else (True if all(v is True for v in vals) else None)
+            return True if True in vals else (False if all(v is False for v in vals) else None)
+        return None
+    wrong, undecided, key_ok = [], [], True
+    sels = [w for w in writes.get("FortranCodeUnit.correlate", [])]
+    for tgt, val, sel, st in sels:
+        if sel is None:
+            continue
+        for dp in (True, False):
+            for il in (True, False):
+                env = {"dp": dp, "il": il}
+                kept = None
+                for conds, tests, keyvar, _src in sel:
+                    cv = [ev(t, env, "*") for t, _p in conds]
+                    fires = all((c == p) for c, (_t, p) in zip(cv, conds) if isinstance(c, bool))
+                    if not fires:
+                        continue
+                    if keyvar is None and tests:
+                        key_ok = False
+                    tv = [ev(t, env, keyvar) for t in tests]
+                    if "not-the-key" in tv:
+                        key_ok = False
+                        tv = [v for v in tv if v != "not-the-key"]
+                    kept = all(v is True for v in tv) if all(isinstance(v, bool) for v in tv) else None
+                    break
+                if kept is None:
+                    undecided.append((tgt, env))
+                elif kept != (dp or il):
+                    wrong.append(f"{tgt}: default public={dp}, name in public_list={il} -> {'kept' if kept else 'dropped'}")
+    if undecided and not wrong:
+        raise AnalysisError(f"correlate: the re-export filter could not be evaluated for {undecided[:2]}")
+    ok_pred = bool(sels) and not wrong
+    rep.ob("re-export filter: unit default public or name in public_list", ok_pred,
+           "kept iff the unit is public by default or the name is listed public" if ok_pred else f"{wrong[:2]}", py.nloc(co))
+    rep.ob("re-export filter is keyed by the local (possibly renamed) name", key_ok and bool(sels),
+           "the predicate receives the table key, i.e. the name under which this module knows the entity" if key_ok else
            "the re-export predicate no longer tests the local name (the table key): an entity imported as "
-           "`local => remote` and listed `public :: local` is not re-exported", py.nloc(fp[0]))
+           "`local => remote` and listed `public :: local` is not re-exported", py.nloc(co))
     # the table helper reads only pub_* attributes
     gu = py.func("FortranModule.get_used_entities")
     args = sorted({c.value for n in ast.walk(gu) if isinstance(n, ast.Call) for c in n.args
@@ -240,7 +337,7 @@ def r2_public_only(ctx, rep):
     rep.ob("only modules re-export", ok, "", py.nloc(co))
     # all_* tables receive the unfiltered imports (visible inside the unit)
     alls = {call_name(e.node).split(".")[1]: e for e in cev if e.kind == "call" and re.fullmatch(r"self\.all_\w+\.update", call_name(e.node))
-            and e.node.args and isinstance(e.node.args[0], ast.Name)}
+            and e.node.args and isinstance(e.node.args[0], (ast.Name, ast.Subscript))}
     ok = {"all_procs", "all_absinterfaces", "all_types", "all_vars"} <= set(alls)
     rep.ob("imports are visible inside the importing unit", ok, "", py.nloc(co))
 
